@@ -124,11 +124,32 @@ class Env:
         from _gettsim.policy_environment import set_up_policy_environment
 
         self.date = date if isinstance(date, datetime.date) else datetime.date.fromisoformat(str(date))
-        with warnings.catch_warnings():
-            warnings.simplefilter("ignore")
-            self.params, self.functions = set_up_policy_environment(self.date)
+        self._params = None
+        self._functions = None
         self._universe = None
         self._dag = {}
+
+    def _load(self):
+        from _gettsim.policy_environment import set_up_policy_environment
+
+        with warnings.catch_warnings():
+            warnings.simplefilter("ignore")
+            self._params, self._functions = set_up_policy_environment(self.date)
+
+    @property
+    def params(self):
+        if self._params is None:
+            self._load()
+        return self._params
+
+    @property
+    def functions(self):
+        """functions only (cheap): the real load_functions_for_date"""
+        if self._functions is None:
+            from _gettsim.policy_environment import load_functions_for_date
+
+            self._functions = load_functions_for_date(self.date)
+        return self._functions
 
     # -- function universe -------------------------------------------------------
     def universe(self, targets=None, data_cols=None):
@@ -222,3 +243,12 @@ def rule_source_fingerprint(func) -> str:
     except (OSError, TypeError):
         src = repr(f0)
     return hashlib.sha256(src.encode()).hexdigest()[:16]
+
+
+def function_set_classes():
+    """date classes of the *function set* only: between two decorator dates the set of active
+    rule implementations is constant (parameters play no role)."""
+    ds = sorted(d for d in decorator_dates() if d.year >= 1980)
+    lo = datetime.date(1980, 1, 1)
+    ds = sorted({lo, *[d for d in ds if d >= lo]})
+    return ds
